@@ -123,7 +123,8 @@ def run(prog, R):
         ex = explore(prog, fmt)
         it = ex['interp']
         R.add('FSM-P', '%s::Reader' % fmt, 'roles', bool(it.advance) and bool(it.locate), 'src/%s.rs' % fmt,
-              'advance = %s; search family = %s' % (sorted(strip_generics(x) for x in it.advance), sorted(strip_generics(x) for x in it.locate)))
+              'advance = %s; search family = %s' % (sorted(strip_generics(x) for x in it.advance), sorted(strip_generics(x) for x in it.locate)),
+              undecided=not (bool(it.advance) and bool(it.locate)))      # the roles are how the abstraction reads the code, not an obligation of the code
         if ex['h0'] is None or ex['h0']['state'] == '?':
             R.anchor_missing('FSM-P', '%s::Reader::with_capacity initial state' % fmt)
             continue
@@ -348,7 +349,9 @@ def flow_rules(prog, R):
                     '&mut' in cb.local_tys[i] and '::Reader<' in cb.local_tys[i] for i in range(1, cb.arg_count + 1))):
                 # a private helper: a reader method, or a free function that is handed the reader (`next_owned(rdr)`)
                 n, o2 = max_ops(cb, targets, depth + 1, seen + (body.key,))
-                if n == 0 and cb.arg_count >= 1 and '&mut' in cb.local_tys[1] and ('::Reader::' in cb.key or '::Reader<' in cb.local_tys[1]):
+                # (a function that only wraps the reader into an adaptor - `records()` - touches nothing: no store through it, no call with it)
+                touches = any(st.k == 'assign' and st.place.local == 1 and st.place.proj for blk_ in cb.blocks for st in blk_.stmts) or bool(list(cb.calls()))
+                if n == 0 and touches and cb.arg_count >= 1 and '&mut' in cb.local_tys[1] and ('::Reader::' in cb.key or '::Reader<' in cb.local_tys[1]):
                     others.append(cb.key)
                 others += o2
             elif cb.arg_count >= 1 and '&mut' in cb.local_tys[1] and '::Reader<' in cb.local_tys[1]:
@@ -436,6 +439,47 @@ def flow_rules(prog, R):
         reset_partial = blocks_where(lambda blk: any(s.k == 'assign' and s.place.local == 1 and [p['name'] for p in s.place.proj if p['k'] == 'field'] == [partial] for s in blk.stmts))
         reset_buf = set(x for x, t in b.calls() if prog.local_callee_body(t.callee) is not None and 'BufferPosition' in prog.local_callee_body(t.callee).key
                         and t.args and all(r[0] == 'arg' and [q[1] for q in r[-1]] == ['buf_pos'] for r in roots_of(b, t.args[0], du)))
+        # ... the same three updates made by a private method of the reader on all of its paths (`self.set_next_record(i)`)
+        def helper_summary(h):
+            hdu = DefUse(h)
+            rets = [x for x in h.cfg.reachable if h.blocks[x].term.k == 'return']
+            def hmust(blocks):
+                return bool(blocks) and all(r_ not in h.cfg.reach_from(0, removed=blocks, include_start=True) for r_ in rets)
+            sp, other, rp, rb = set(), set(), set(), set()
+            for x in h.cfg.reachable:
+                for st in h.blocks[x].stmts:
+                    if st.k == 'assign' and st.place.local == 1:
+                        nm = [p['name'] for p in st.place.proj if p['k'] == 'field']
+                        if nm == ['state']:
+                            rs_ = roots_of(h, st.rv.ops[0], hdu) if st.rv.k == 'use' else []
+                            (sp if any(r_[0] == 'agg' and r_[1].rv.j.get('variant') == 'Positioned' for r_ in rs_) else other).add(x)
+                        if nm == [partial]:
+                            rp.add(x)
+            for x, t_ in h.calls():
+                cb_ = prog.local_callee_body(t_.callee)
+                if cb_ is not None and 'BufferPosition' in cb_.key and t_.args and all(r_[0] == 'arg' and [q[1] for q in r_[-1]] == ['buf_pos'] for r_ in roots_of(h, t_.args[0], hdu)):
+                    rb.add(x)
+            pw = set(x for x in h.cfg.reachable for st in h.blocks[x].stmts if st.k == 'assign' and st.place.local == 1 and [p['name'] for p in st.place.proj if p['k'] == 'field'] == ['position'])
+            return hmust(sp) and not other, bool(other), hmust(rp), hmust(rb), hmust(pw)
+        helper_posw = set()
+        for x, t in b.calls():
+            h = prog.local_callee_body(t.callee)
+            if h is None or not h.key.startswith('%s::Reader::' % fmt) or h is b or not t.args or '{closure' in h.key:
+                continue
+            if not all(r_[0] == 'arg' and r_[1] == 1 and not r_[-1] for r_ in roots_of(b, t.args[0], du)):
+                continue
+            m_sp, may_other, m_rp, m_rb, m_pw = helper_summary(h)
+            if m_pw:
+                helper_posw.add(x)
+            if m_sp:
+                set_pos.add(x)
+            elif may_other:
+                other_state.add(x)
+            if m_rp:
+                reset_partial.add(x)
+            if m_rb:
+                reset_buf.add(x)
+        positioned = not any(r in b.cfg.reach_from(o, include_start=True) for o in other_state for r in okret)
         srcseek = [(x, t) for x, t in b.calls() if t.callee and t.callee.is_('std::io::Seek::seek')]
         fills = [(x, t) for x, t in b.calls() if prog.local_callee_body(t.callee) in refills]
         # ... or in a closure of this function (`seek(..).and_then(|_| fill_buf(..))`)
@@ -457,21 +501,33 @@ def flow_rules(prog, R):
             if far:
                 # seek target: SeekFrom::Start(to.byte) ; then refill
                 tgt_ok = False
+                tgt_helper = False
+                far_tgt_undecided = False
                 for x, t in srcseek:
                     ops = unwrap_aggs(b, t.args[1], [('adt', 'Start')])
                     if ops:
                         rs = roots_of(b, ops[0], du)
                         tgt_ok = bool(rs) and all(q[0] == 'arg' and q[1] == 2 and [f[1] for f in q[-1]] == ['byte'] for q in rs)
+                        # the target travels through a value built by a private function (`SeekTarget::Source(byte)` from `self.locate(to)`)
+                        if not tgt_ok and rs and all(q[0] == 'call' and prog.local_callee_body(q[1].callee) is not None for q in rs):
+                            tgt_helper = True
                 helper_fill = not fills and any(prog.local_callee_body(t_.callee) is not None and prog.local_callee_body(t_.callee).key.startswith(('fasta::Reader::', 'fastq::Reader::')) and
                                                  prog.local_callee_body(t_.callee).arg_count >= 1 and '&mut' in prog.local_callee_body(t_.callee).local_tys[1] and
                                                  not is_buffer_call(prog, t_.callee) for _, t_ in b.calls())
                 ok_wo_fill = ok and tgt_ok
+                if ok and not tgt_ok and tgt_helper and bool(fills):
+                    far_tgt_undecided = True
                 ok = ok and tgt_ok and bool(fills)
                 det += ', source seeks to Start(to.byte) %s (that the buffer is refilled before a successful return is BUF-2, decided path-sensitively)%s' % (tgt_ok, '; the refill is not called here directly (a private helper is): not judged' if (helper_fill and ok_wo_fill) else '')
-                far_undecided = helper_fill and ok_wo_fill
+                far_undecided = (helper_fill and ok_wo_fill) or far_tgt_undecided
             R.add('SEEK-1', b, '%s-branch' % ('far' if far else 'in-buffer'), ok, site(b, b.blocks[r].term.line or b.span['lo']), det, undecided=(not ok) and far and far_undecided)
         # position itself is set to the target
         posw = blocks_where(lambda blk: any(s.k == 'assign' and s.place.local == 1 and [p['name'] for p in s.place.proj if p['k'] == 'field'] == ['position'] for s in blk.stmts))
+        posw |= helper_posw
+        # `self.position.clone_from(to)`
+        posw |= set(x for x, t in b.calls() if t.callee and t.callee.name == 'clone_from' and len(t.args) == 2 and
+                    all(r_[0] == 'arg' and r_[1] == 1 and [q[1] for q in r_[-1]] == ['position'] for r_ in roots_of(b, t.args[0], du)) and bool(roots_of(b, t.args[0], du)) and
+                    all(r_[0] == 'arg' and r_[1] == 2 for r_ in roots_of(b, t.args[1], du)))
         R.add('SEEK-1', b, 'position-set-to-target', bool(posw) and all(r not in b.cfg.reach_from(0, removed=posw, include_start=True) for r in okret), site(b, b.span['lo']),
               'self.position is assigned on every successful path')
     R.floor('SEEK-1', 6)
@@ -660,7 +716,7 @@ def run_seek4(prog, R):
         init = Path()
         init.env[1] = Aff.sym(SELF)
         init.env[2] = Aff.sym(TO)
-        paths = Sym(prog, b).run(0, init=init)
+        paths = Sym(prog, b, inline='multi').run(0, init=init)
         oks = [p for p in paths if p.end[0] == 'return' and getattr(p.env.get(0), 'variant', None) == 'Ok']
         cg_ = prog.call_graph()
         seek_memo = {}
@@ -776,6 +832,8 @@ def run_seek4(prog, R):
             resets = [a for (_, t, a) in p.effects if t.callee and (prog.local_callee_body(t.callee) is not None) and prog.local_callee_body(t.callee).key.endswith('BufferPosition::reset')]
             v = resets[-1][1] if resets and len(resets[-1]) == 2 else p.store.get(start_loc)
             okf = all((a[1] if len(a) == 2 else None) == Aff.const(0) for a in resets) and bool(resets) if resets else v == Aff.const(0)
-            R.add('SEEK-5', b, 'far-path-record-start=0', okf, where, 'record start after repositioning the source = %r (the refilled buffer starts at the target)' % (v,))
+            # a value this rule cannot evaluate on the far path (`buf_index.unwrap_or(0)` with buf_index from a combinator chain): not judged
+            opaque_v = (not okf) and isinstance(v, Aff) and any(isinstance(sy, tuple) and sy[0] in ('call', 'try') for sy in v.syms())
+            R.add('SEEK-5', b, 'far-path-record-start=0', okf, where, 'record start after repositioning the source = %r (the refilled buffer starts at the target)' % (v,), undecided=opaque_v)
     R.floor('SEEK-4', 4)
     R.floor('SEEK-5', 4)
